@@ -78,6 +78,13 @@ bool OSSLDSA::sign(PrivateKey* privateKey, const ByteString& dataToSign,
 		OSSLDSAPrivateKey* pk = (OSSLDSAPrivateKey*) privateKey;
 		DSA* dsa = pk->getOSSLKey();
 
+		if (dsa == NULL)
+		{
+			ERROR_MSG("Could not get the OpenSSL private key");
+
+			return false;
+		}
+
 		// Perform the signature operation
 		unsigned int sigLen = pk->getOutputLength();
 		signature.resize(sigLen);
@@ -218,6 +225,13 @@ bool OSSLDSA::signFinal(ByteString& signature)
 
 	DSA* dsa = pk->getOSSLKey();
 
+	if (dsa == NULL)
+	{
+		ERROR_MSG("Could not get the OpenSSL private key");
+
+		return false;
+	}
+
 	// Perform the signature operation
 	unsigned int sigLen = pk->getOutputLength();
 	signature.resize(sigLen);
@@ -254,6 +268,15 @@ bool OSSLDSA::verify(PublicKey* publicKey, const ByteString& originalData,
 
 		// Perform the verify operation
 		OSSLDSAPublicKey* pk = (OSSLDSAPublicKey*) publicKey;
+		DSA* dsa = pk->getOSSLKey();
+
+		if (dsa == NULL)
+		{
+			ERROR_MSG("Could not get the OpenSSL public key");
+
+			return false;
+		}
+
 		unsigned int sigLen = pk->getOutputLength();
 		if (signature.size() != sigLen)
 			return false;
@@ -270,7 +293,7 @@ bool OSSLDSA::verify(PublicKey* publicKey, const ByteString& originalData,
 			return false;
 		}
 		int dLen = originalData.size();
-		int ret = DSA_do_verify(originalData.const_byte_str(), dLen, sig, pk->getOSSLKey());
+		int ret = DSA_do_verify(originalData.const_byte_str(), dLen, sig, dsa);
 		if (ret != 1)
 		{
 			if (ret < 0)
@@ -405,6 +428,15 @@ bool OSSLDSA::verifyFinal(const ByteString& signature)
 		return false;
 	}
 
+	DSA* dsa = pk->getOSSLKey();
+
+	if (dsa == NULL)
+	{
+		ERROR_MSG("Could not get the OpenSSL public key");
+
+		return false;
+	}
+
 	// Perform the verify operation
 	unsigned int sigLen = pk->getOutputLength();
 	if (signature.size() != sigLen)
@@ -421,7 +453,7 @@ bool OSSLDSA::verifyFinal(const ByteString& signature)
 		DSA_SIG_free(sig);
 		return false;
 	}
-	int ret = DSA_do_verify(&hash[0], hash.size(), sig, pk->getOSSLKey());
+	int ret = DSA_do_verify(&hash[0], hash.size(), sig, dsa);
 	if (ret != 1)
 	{
 		if (ret < 0)
